@@ -140,6 +140,8 @@ def b_hasattr(ex, state, args, kwargs, sv):
     if isinstance(o, VRef) and isinstance(n, VStr) and z3.is_string_value(n.t):
         ob = ex.obj(state, o)
         name = n.t.as_string()
+        if name in ob.fields and ob.shape is not None and name in getattr(ex.reg.shapes[ob.shape], "absent_none", ()):
+            return VBool(simp(z3.Not(ex.is_(state, ob.fields[name], VNone))))
         if name in ob.fields:
             return VBool(True)
         if ob.shape is not None and name in ex.reg.shapes[ob.shape].methods:
@@ -297,8 +299,9 @@ def b_max(ex, state, args, kwargs, sv):
 def b_ord(ex, state, args, kwargs, sv):
     a = args[0]
     if isinstance(a, VBytes):
-        ex.raise_if(state, z3.Length(a.t) != 1, "TypeError")
-        e = a.t[0]
+        from .ops import seq_len, seq_nth
+        ex.raise_if(state, seq_len(ex, state, a.t) != 1, "TypeError")
+        e = seq_nth(ex, state, a.t, z3.IntVal(0))
         state.assume(z3.And(e >= 0, e <= 255))
         return VInt(e)
     if isinstance(a, VStr):
@@ -470,14 +473,11 @@ def b_struct_unpack(ex, state, args, kwargs, sv):
     n = _FMT[fmt.t.as_string()]
     if not isinstance(data, VBytes):
         _type_error(ex, state)
-    ex.raise_if(state, z3.Length(data.t) != n, "struct.error")
+    from .ops import seq_len, seq_nth
+    ex.raise_if(state, seq_len(ex, state, data.t) != n, "struct.error")
     t = data.t
-    if z3.is_app(t) and t.decl().kind() == z3.Z3_OP_SEQ_EXTRACT:
-        # unpack(fmt, base[lo:lo+n]): read the octets from the base sequence directly (same values, simpler terms)
-        base, lo = t.arg(0), t.arg(1)
-        elems = [base[lo + i] for i in range(n)]
-    else:
-        elems = [t[i] for i in range(n)]
+    # read the octets through slices / concatenations from the underlying sequences (same values, simpler terms)
+    elems = [seq_nth(ex, state, t, z3.IntVal(i)) for i in range(n)]
     for e in elems:
         state.assume(z3.And(e >= 0, e <= 255))
     val = z3.Sum([e * (256 ** (n - 1 - i)) for i, e in enumerate(elems)]) if n > 1 else elems[0]
@@ -1131,7 +1131,11 @@ def _dv(kind):
                 patterns=[z3.Select(val, k)]))
             return state.alloc(lst)
         if o.d is None:
-            # keys()/items() of a table: an opaque view (only fit for logging / passing on; iterating it is unsupported)
+            if kind == "keys":
+                # the keys view of a table stands for the table itself (membership, length); other uses of a view
+                # (set algebra, comparison) are outside the modelled subset
+                return sv
+            # items() of a table: an opaque view (only fit for logging / passing on; iterating it is unsupported)
             return VOpaque(fresh_name("dict_" + kind))
         if kind == "keys":
             return VTuple([ex.const(k) for k in o.d])
